@@ -22,7 +22,7 @@ BUDGET_S = {"quick": 150, "thorough": 3000}
 FLOORS = {"quick": 2000, "thorough": 60000}
 RULE = ("Seeded random option sets x inputs of 15-45 reads with planted adapters. Non-trivial = the read has at least one match row; "
         "distinct by (options, input record).")
-ASSUMPTIONS = ["read ids are unique", "default action only (the statement's domain)"]
+ASSUMPTIONS = ["read ids are unique", "actions trim, mask, none and retain (the rows describe the matches, not the action); lowercase and crop are not generated"]
 
 
 def gen_case(rng):
@@ -45,6 +45,11 @@ def gen_case(rng):
         adopts += ["--revcomp"]
     if rng.random() < 0.25:
         adopts += ["--no-indels"]
+    action = rng.choice(["trim", "trim", "trim", "mask", "none", "retain"])
+    if action == "retain" and times > 1:
+        action = "mask"
+    if action != "trim":
+        adopts += ["--action", action]
     filt = []
     if rng.random() < 0.5:
         if rng.random() < 0.6:
